@@ -116,6 +116,31 @@ fn run(len: usize) {
     witness("end");
 }
 
+/// found missing by seed C12e: the target code has no migrate entry point.  Even the admin's Migrate
+/// must fail and leave code id, admin and storage unchanged.
+fn migrate_to_code_without_migrate_entry_point() {
+    let mut app = App::default();
+    let (admin, stranger) = (addr("admin"), addr("stranger"));
+    let code1 = app.store_code(sc::contract());
+    let bare = app.store_code(sc::contract_minimal());
+    let c = app.instantiate_contract(code1, admin.clone(), &Script::new().write("m", "1"), &[], "c", Some(admin.to_string())).unwrap();
+    let who = [admin.clone(), stranger][choose(2)].clone();
+    let before = snapshot(&app);
+    let r = catch(|| app.migrate_contract(who.clone(), c.clone(), &Script::new(), bare));
+    match r {
+        Err(p) => failure("no_panic", "panic", p),
+        Ok(Ok(_)) => {
+            check_native("migration_to_code_without_migrate_entry_point_fails", false, || format!("succeeded for {}", who));
+        }
+        Ok(Err(_)) => {
+            witness("bare_target_rejected");
+            check_unchanged("denied_attempt_leaves_code_admin_and_storage_unchanged", &app, &before);
+            let cd = app.contract_data(&c).unwrap();
+            check_native("code_id_recorded", cd.code_id == code1 && cd.admin == Some(admin.clone()), || format!("{:?}", cd));
+        }
+    }
+}
+
 /// the migrate entry point of the new code emits admin operations as sub-messages: they are checked
 /// against the MIGRATED CONTRACT as sender (found missing by seed C12b)
 fn migrate_emitting_admin_ops() {
@@ -165,6 +190,7 @@ pub fn scenarios(tier: &str) -> Vec<Scenario> {
     let mut v = vec![
         Scenario::new("sequences_of_2", &["allowed_ok", "denied", "migrated", "end"], || run(2)),
         Scenario::new("migration_emitting_admin_operations", &["nested_allowed", "nested_denied"], migrate_emitting_admin_ops),
+        Scenario::new("migration_to_code_without_migrate_entry_point", &["bare_target_rejected"], migrate_to_code_without_migrate_entry_point),
     ];
     if tier == "thorough" {
         v.push(Scenario::new("sequences_of_3", &["allowed_ok", "denied", "migrated", "end"], || run(3)));
